@@ -148,6 +148,7 @@ bool build_check(const std::string& prop, const std::string& tier, CheckSpec& s,
         s.batches.push_back(mk("conc", q ? 40 : 2000, {"G/g++-asm"}, "single", {}, "the same sources built with g++"));
         s.batches.push_back(mk("wkd", q ? 160 : 8000, FAST, "single", {{"focus", 0}}, "WKD-IBE histories with every attribute list in the library's own format in caller memory: a list that differs after the call from what the caller built is state kept in (or written through) a const input"));
         s.batches.push_back(mk("wkd", q ? 40 : 2000, FAST, "duo", {{"focus", 0}, {"maxops", 12}}, "the same as two concurrent caller threads (M-solo: each history's event log equals its log when run alone)"));
+        s.batches.push_back(mk("prim", q ? 120 : 6000, ALLG, "single", {{"ops", 200}}, "field-arithmetic primitives, every call repeated into a second output object that held other bytes: the result is a function of the operands alone (operands driven into the compare-and-subtract tails, where a path that stores nothing would hand back stale memory)"));
         return true;
     }
     err = "no check registered for property " + prop;
